@@ -89,6 +89,47 @@ def token_ok(tok, original, safestr_type):
     except Exception:
         return False
 
+def line_grammar_problem(out, head, xs, safestr_type):
+    """independent tokenizer for one printed line `<head>[ <extra>…]\\n` against the arguments of the tag() call: a safestr
+    extra must appear verbatim; every other extra must appear as ONE token (quoted literal / safe word / `(empty string)`)
+    that is an escaped form of it (`token_ok`).  Returns None or a description of the first deviation (e.g. file text that
+    comes out unquoted)."""
+    if not out.endswith('\n'):
+        return 'line does not end with a newline'
+    body = out[:-1]
+    if not body.startswith(head):
+        return 'line does not start with ' + ascii(head)
+    rest = body[len(head):]
+    pos = 0
+    for i, x in enumerate(xs):
+        if rest[pos:pos + 1] != ' ':
+            return f'extra {i}: missing (line ends or no blank at offset {len(head) + pos})'
+        pos += 1
+        if isinstance(x, safestr_type):
+            t = str.__str__(x)
+            if rest[pos:pos + len(t)] != t:
+                return f'extra {i}: tool text {ascii(t)} expected verbatim, found {ascii(rest[pos:pos + len(t) + 8])}'
+            pos += len(t)
+            continue
+        if rest[pos:pos + 1] in ('"', "'"):
+            q = rest[pos]
+            j = pos + 1
+            while j < len(rest) and rest[j] != q:
+                j += 2 if rest[j] == '\\' else 1
+            tok = rest[pos:j + 1]
+        elif rest.startswith('(empty string)', pos):
+            tok = '(empty string)'
+        else:
+            m = SAFE_WORD.match(rest, pos)
+            tok = m.group() if m else ''
+        if not tok or not token_ok(tok, x, safestr_type):
+            return (f'extra {i}: file-derived value {ascii(x)} appears as {ascii(rest[pos:pos + max(len(tok), 1) + 12])}: '
+                    f'token {ascii(tok)} is not an escaped form of it (unquoted or wrongly quoted text)')
+        pos += len(tok)
+    if pos != len(rest):
+        return f'text after the last extra: {ascii(rest[pos:pos + 40])}'
+    return None
+
 # ------------------------------------------------------------------------------------------------ the real code
 
 class Real:
@@ -438,6 +479,12 @@ def load_sites():
         return None
     return json.loads(out)
 
+def load_state():
+    rc, out, err = common.run([common.PY, os.path.join(common.VERIF, 'tools', 'translate', 'tagstate2lean.py'), common.REPO, '--json'])
+    if rc != 0:
+        return None
+    return json.loads(out)
+
 def make_capture(R):
     cli = R.cli
     class Capture(cli.Checker):
@@ -499,9 +546,11 @@ def check_calls(R, calls, path, ignore, registry, sites):
             continue
         letter = REF_LETTER[registry[name][0]][registry[name][1]]
         exp = f'{letter}: {path}: {name}' + ''.join(' ' + ref_escape(x, T.safestr) for x in xs) + '\n'
-        if out != exp:
-            bad.append({'kind': 'line-differs-from-reference', 'key': f'line:{where}:{name}', 'where': where, 'tag': name,
-                        'observed': ascii(out), 'expected': ascii(exp), 'extras': [ascii(x) for x in xs]})
+        gram = line_grammar_problem(out, f'{letter}: {path}: {name}', xs, T.safestr)
+        if gram is not None or out != exp:
+            bad.append({'kind': 'line-grammar' if gram is not None else 'line-differs-from-reference', 'key': f'line:{where}:{name}', 'where': where, 'tag': name,
+                        'observed': ascii(out), 'expected': ascii(exp), 'grammar': gram,
+                        'extras': [type(x).__name__ + ':' + ascii(x) for x in xs]})
             continue
         if dirty:
             continue        # the line is corrupted by the safestr extra reported above
@@ -675,3 +724,582 @@ def taint_stream(chk, R, nfiles, sites):
     stats['distinct_tags'] = len(stats['tags_seen'])
     stats['distinct_call_sites'] = len(stats.pop('sites_seen'))
     return replays, stats, lines, outs
+
+# ------------------------------------------------------------------------------------------------ sequences (history independence)
+#
+# The property is about every call, whatever was formatted before it in the same process.  Everything above evaluates calls
+# one by one in a process whose history is whatever the harness did before; the streams below control the history: SEQUENCES
+# of calls (escaper / Tag.format / safe_format / message_repr / Checker.tag) and of files (several catalogs through
+# Checker.check() in ONE process, and through one command line) in fresh worker processes, where a later file-derived
+# str/bytes value equals — as text — something the tool handled earlier as `safestr`, and the other way round, and the same
+# text as str, bytes, int, float, bool, str()-able object.  Every output is compared with the stateless reference, with the
+# same call on a freshly loaded `lib.tags` (no history), and — by the parent — with the Lean model (stateless by construction).
+
+import importlib.util, types
+
+class StrObj:
+    """an object the escaper sees through its str() (like ling.Language)"""
+    def __init__(self, text):
+        self.text = text
+    def __str__(self):
+        return self.text
+    def __repr__(self):
+        return f'StrObj({self.text!r})'
+
+def dec_extra(tok, T):
+    k, _, p = tok.partition(':')
+    if k == 's':
+        return T.safestr(unhx(p))
+    if k == 'u':
+        return unhx(p)
+    if k == 'b':
+        return b'' if p == '-' else bytes.fromhex(p)
+    if k == 'i':
+        return int(p)
+    if k == 'B':
+        return p == '1'
+    if k == 'f':
+        return float(p)
+    if k == 'o':
+        return StrObj(unhx(p))
+    raise ValueError(tok)
+
+def py_extra(tok):
+    """source text of a typed extra, for replay scripts"""
+    k, _, p = tok.partition(':')
+    if k == 's':
+        return f'tags.safestr({unhx(p)!a})'
+    if k == 'u':
+        return ascii(unhx(p))
+    if k == 'b':
+        return ascii(b'' if p == '-' else bytes.fromhex(p))
+    if k == 'i':
+        return p
+    if k == 'B':
+        return 'True' if p == '1' else 'False'
+    if k == 'f':
+        return repr(float(p))
+    return f'StrObj({unhx(p)!a})'
+
+def py_call(c):
+    xs = ', '.join(py_extra(t) for t in c.get('xs', []))
+    op = c['op']
+    if op == 'escape':
+        return f'tags._escape({xs})'
+    if op == 'format':
+        return f"tags.get_tag({c['tag']!a}).format({c['path']!a}{', ' + xs if xs else ''})"
+    if op == 'sformat':
+        kw = ', '.join(f'**{{{k!a}: {py_extra(v)}}}' for k, v in c.get('kws', []))
+        return f"tags.safe_format({', '.join([ascii(c['tpl'])] + ([xs] if xs else []) + ([kw] if kw else []))})"
+    if op == 'msgrepr':
+        return f"message_repr(types.SimpleNamespace(msgid={c['msgid']!a}, msgctxt={c['ctxt']!a}), template={c['tpl']!a})"
+    if op == 'tag':
+        return f"tag_out({c['path']!a}, {c['tag']!a}{', ' + xs if xs else ''})"
+    if op == 'tagmsg':
+        return (f"tag_out({c['path']!a}, {c['tag']!a}, message_repr(types.SimpleNamespace(msgid={c['msgid']!a}, msgctxt={c['ctxt']!a}), "
+                f"template={c['tpl']!a}){', ' + xs if xs else ''})")
+    return repr(c)
+
+REPLAY_PRELUDE = '''import sys, io, types, argparse, contextlib
+sys.dont_write_bytecode = True
+sys.path.insert(0, {repo!r})
+from lib import tags, cli
+from lib.check.msgrepr import message_repr
+cli.Checker.patch_environment()
+class StrObj:
+    def __init__(self, t): self.t = t
+    def __str__(self): return self.t
+def tag_out(path, name, *extra):
+    ck = cli.Checker(path, options=argparse.Namespace(ignore_tags=set(), fake_root=None))
+    buf = io.StringIO()
+    with contextlib.redirect_stdout(buf):
+        ck.tag(name, *extra)
+    return buf.getvalue()
+'''
+
+def replay_script(calls):
+    return REPLAY_PRELUDE.format(repo=common.REPO) + ''.join(f'print(ascii({py_call(c)}))\n' for c in calls)
+
+def fresh_tags():
+    """lib/tags.py executed again as a new module object: the same code with no history"""
+    spec = importlib.util.spec_from_file_location('lib.tags', os.path.join(common.REPO, 'lib', 'tags.py'))
+    m = importlib.util.module_from_spec(spec)
+    spec.loader.exec_module(m)
+    return m
+
+@contextlib.contextmanager
+def using_tags(R, T):
+    """let cli.Checker.tag / msgrepr.message_repr resolve `tags` to the module object T for the duration"""
+    saved = R.cli.tags, R.msgrepr.tags
+    R.cli.tags = R.msgrepr.tags = T
+    try:
+        yield
+    finally:
+        R.cli.tags, R.msgrepr.tags = saved
+
+def ref_message_repr(msgid, ctxt, tpl, safestr_type=()):
+    sub = 'msgid {id}'
+    kw = {'id': ref_escape(msgid, safestr_type)}
+    if ctxt is not None:
+        sub += ' msgctxt {ctxt}'
+        kw['ctxt'] = ref_escape(ctxt, safestr_type)
+    return tpl.format(sub).format(**kw)
+
+def exec_call(R, T, c, registry):
+    """one call of a sequence on the real code, with `T` as the tags module.  Returns [(protocol line, real outcome, reference
+    outcome)] — one entry, two for `tagmsg` (message_repr, then Checker.tag with its result)."""
+    op = c['op']
+    xs = [dec_extra(t, T) for t in c.get('xs', [])]
+    sev = sorted(T.severities, key=lambda x: x.value)
+    cer = sorted(T.certainties, key=lambda x: x.value)
+    def ref_line(name, path, vals):
+        s, ce = registry[name]
+        return f'{REF_LETTER[s][ce]}: {path}: {name}' + ''.join(' ' + ref_escape(v, T.safestr) for v in vals)
+    with using_tags(R, T):
+        if op == 'escape':
+            return [('tags escape ' + enc_extra(xs[0], T), canon(lambda: T._escape(xs[0])), canon(lambda: ref_escape(xs[0], T.safestr)))]
+        if op == 'format':
+            tag = T.get_tag(c['tag'])
+            line = ' '.join(['tags format', str(sev.index(tag.severity)), str(cer.index(tag.certainty)), hx(tag.name), hx(c['path']), '0', '-', '-'] + [enc_extra(x, T) for x in xs])
+            return [(line, canon(lambda: tag.format(c['path'], *xs)), canon(lambda: ref_line(c['tag'], c['path'], xs)))]
+        if op == 'sformat':
+            kws = {k: dec_extra(v, T) for k, v in c.get('kws', [])}
+            line = ' '.join(['tags sformat', hx(c['tpl'])] + ['a:' + enc_extra(x, T) for x in xs] + ['w:' + hx(k) + ':' + enc_extra(v, T) for k, v in kws.items()])
+            return [(line, canon(lambda: T.safe_format(c['tpl'], *xs, **kws)),
+                     canon(lambda: c['tpl'].format(*[ref_escape(x, T.safestr) for x in xs], **{k: ref_escape(v, T.safestr) for k, v in kws.items()})))]
+        msg = types.SimpleNamespace(msgid=c.get('msgid'), msgctxt=c.get('ctxt'))
+        if op == 'msgrepr':
+            line = ' '.join(['tags msgrepr', hx(c['tpl']), hx(msg.msgid), '~' if msg.msgctxt is None else hx(msg.msgctxt)])
+            return [(line, canon(lambda: R.msgrepr.message_repr(msg, template=c['tpl'])), canon(lambda: ref_message_repr(msg.msgid, msg.msgctxt, c['tpl'])))]
+        ck = R.checker(c['path'])
+        if op == 'tag':
+            line = ' '.join(['tags tag', '0', hx(c['tag']), hx(c['path'])] + [enc_extra(x, T) for x in xs])
+            return [(line, canon(lambda: R.tag_out(ck, c['tag'], xs)), canon(lambda: ref_line(c['tag'], c['path'], xs) + '\n'))]
+        if op == 'tagmsg':
+            l1 = ' '.join(['tags msgrepr', hx(c['tpl']), hx(msg.msgid), '~' if msg.msgctxt is None else hx(msg.msgctxt)])
+            try:
+                r = R.msgrepr.message_repr(msg, template=c['tpl'])
+                o1 = 'ok ' + hx(r)
+            except Exception as exc:
+                return [(l1, 'err ' + type(exc).__name__, canon(lambda: ref_message_repr(msg.msgid, msg.msgctxt, c['tpl'])))]
+            e1 = canon(lambda: ref_message_repr(msg.msgid, msg.msgctxt, c['tpl']))
+            if not isinstance(r, T.safestr):
+                o1 = 'ok-not-safestr ' + hx(str(r))
+            vals = [r] + xs
+            l2 = ' '.join(['tags tag', '0', hx(c['tag']), hx(c['path'])] + [enc_extra(x, T) for x in vals])
+            rvals = [T.safestr(ref_message_repr(msg.msgid, msg.msgctxt, c['tpl']))] + xs
+            return [(l1, o1, e1), (l2, canon(lambda: R.tag_out(ck, c['tag'], vals)), canon(lambda: ref_line(c['tag'], c['path'], rvals) + '\n'))]
+    raise ValueError(op)
+
+def show(o):
+    return ascii(unhx(o[3:])) if o.startswith('ok ') else o
+
+def run_unit_sequences(R, registry, seqs, fresh_budget, res, history):
+    """every sequence on the long-lived `lib.tags` of this process (history = everything this worker did before)"""
+    T = R.tags
+    nfresh = 0
+    for sq in seqs:
+        for i, c in enumerate(sq['calls']):
+            try:
+                got = exec_call(R, T, c, registry)
+            except Exception as exc:
+                got = [('tags ? ' + c['op'], 'err harness ' + type(exc).__name__, 'ok ?')]
+            history.append(c)
+            res['stats']['unit_calls'] += 1
+            res['stats']['ops'][c['op']] = res['stats']['ops'].get(c['op'], 0) + 1
+            fresh = None
+            last = i == len(sq['calls']) - 1
+            bad = any(o != e for _l, o, e in got)
+            if (last and nfresh < fresh_budget) or bad:
+                nfresh += 1
+                try:
+                    fresh = exec_call(R, fresh_tags(), c, registry)
+                    res['stats']['fresh_calls'] += 1
+                except Exception as exc:
+                    fresh = None
+            for k, (line, o, e) in enumerate(got):
+                if not line.startswith('tags ?'):
+                    res['lines'].append(line)
+                    res['outs'].append(o)
+                fo = fresh[k][1] if fresh is not None and k < len(fresh) else None
+                if o != e or (fo is not None and fo != o):
+                    if len(res['violations']) >= 60:
+                        continue
+                    # does the sequence alone reproduce it, on a module without any history?
+                    alone = None
+                    try:
+                        T2 = fresh_tags()
+                        outs2 = [exec_call(R, T2, c2, registry) for c2 in sq['calls'][:i + 1]]
+                        alone = outs2[-1][k][1] == o if k < len(outs2[-1]) else None
+                    except Exception:
+                        pass
+                    calls = sq['calls'][:i + 1] if alone else history[-400:]
+                    res['violations'].append({
+                        'kind': 'history-dependent-output' if (fo is not None and fo != o) else 'sequence-output-differs-from-reference',
+                        'key': 'sequence:' + sq['what'], 'tag': c.get('tag', '-'), 'where': 'unit sequence: ' + sq['what'],
+                        'input': ' ; '.join(py_call(c2) for c2 in sq['calls'][:i + 1]),
+                        'call': py_call(c), 'observed': show(o), 'expected': show(e),
+                        'same_call_without_history': None if fo is None else show(fo),
+                        'reproduces_with_this_sequence_alone_in_a_fresh_process': alone,
+                        'calls_before_in_this_process': len(history) - (i + 1),
+                        'sequence': [py_call(c2) for c2 in calls],
+                        'replay': 'save replay_script to r.py and run: ' + common.PY + ' r.py   (prints every call\'s result; the last line is the failing one)',
+                        'replay_script': replay_script(calls)})
+    return res
+
+def run_e2e_sequences(R, registry, seqs, tmp, res):
+    """several catalogs through Checker.check() one after the other in THIS process; the property on every captured call"""
+    T = R.tags
+    Capture = make_capture(R)
+    for sq in seqs:
+        files = []
+        for j, f in enumerate(sq['files']):
+            d = os.path.join(tmp, f"s{sq['id']}", str(j))
+            os.makedirs(d, exist_ok=True)
+            path = os.path.join(d, f['name'])
+            os.makedirs(os.path.dirname(path), exist_ok=True)
+            data = bytes.fromhex(f['hex'])
+            open(path, 'wb').write(data)
+            files.append((path, f, data))
+        for j, (path, f, data) in enumerate(files):
+            calls, crash, stray = run_file(R, Capture, path, ())
+            res['stats']['e2e_files'] += 1
+            res['stats']['e2e_calls'] += len(calls)
+            res['stats']['e2e_crashes'] += crash is not None
+            for c in calls:
+                res['stats']['tags_seen'].add(c['tag'])
+                if c['exc'] is None:
+                    res['lines'].append(' '.join(['tags tag', '0', hx(c['tag']), hx(path)] + [enc_extra(x, T) for x in c['extras']]))
+                    res['outs'].append('ok ' + hx(c['out']))
+            bad = check_calls(R, calls, path, set(), registry, None)
+            if stray:
+                bad.append({'kind': 'stdout-outside-tag', 'key': 'stray-stdout', 'observed': ascii(stray[:300]), 'expected': 'nothing is printed except by Checker.tag', 'tag': '-', 'where': '-'})
+            for v in bad[:2]:
+                if len(res['violations']) >= 60:
+                    break
+                names = [os.path.relpath(p, tmp) for p, _f, _d in files[:j + 1]]
+                res['violations'].append(dict(
+                    v, key='sequence:' + v['key'], where=f"{v.get('where')} (file {j + 1} of a {len(files)}-file sequence: {sq['what']})",
+                    input=f"{len(names)} file(s) checked one after the other in one process: " + ' '.join(names),
+                    planted=sq.get('planted'),
+                    files=[{'name': os.path.relpath(p, tmp), 'content': d.decode('utf-8', 'backslashreplace') if not p.endswith('.mo') else None, 'hex': d.hex()}
+                           for p, _f, d in files[:j + 1]],
+                    replay=f"write the files (hex) and run: {common.PY} {common.REPO}/i18nspector {' '.join(names)} | cat -v"))
+    return res
+
+def seq_worker_main():
+    job = json.load(sys.stdin)
+    R = Real()
+    registry = registry_from_file()
+    res = {'violations': [], 'lines': [], 'outs': [],
+           'stats': {'unit_calls': 0, 'fresh_calls': 0, 'ops': {}, 'e2e_files': 0, 'e2e_calls': 0, 'e2e_crashes': 0, 'tags_seen': set()}}
+    history = []
+    tmp = tempfile.mkdtemp(prefix='i18n-verif-c02seq.')
+    try:
+        for part in job['order']:
+            if part == 'e2e':
+                run_e2e_sequences(R, registry, job['e2e'], tmp, res)
+            else:
+                run_unit_sequences(R, registry, job['unit'], job['fresh_budget'], res, history)
+    finally:
+        shutil.rmtree(tmp, ignore_errors=True)
+    res['stats']['tags_seen'] = sorted(res['stats']['tags_seen'])
+    with open(job['result'], 'w') as f:
+        json.dump(res, f)
+
+# ---- generation (parent)
+
+SEQ_BASES = ['msgid foo:', 'a b', "it's", 'PO-Revision-Date:', 'x =>', '(empty string) ', "'a b'", "b'x'", 'say "x"', 'back\\slash', 'fox\n',
+             '\x1b[31m', 'żółw ☃', '12 ', 'msgid foo msgctxt bar:', 'I: x.po: unknown-message-flag msgid foo: bar']
+SEQ_SPECIALS = ['', '(empty string)', 'x', '0', '1', '-1', 'True', '1.0', "''", 'None']
+SEQ_TAGS = ['unknown-message-flag', 'invalid-date', 'stray-header-line', 'duplicate-message-definition', 'os-error']
+SEQ_KINDS = 'subo'
+
+def typed_tok(kind, text):
+    if kind == 'b':
+        return 'b:' + (text.encode('utf-8', 'surrogatepass').hex() or '-')
+    return kind + ':' + hx(text)
+
+def unit_call(rng, op, toks, text=None):
+    tagname = rng.choice(SEQ_TAGS)
+    path = rng.choice(['x.po', 'dir/a b.po'])
+    if op == 'escape':
+        return {'op': 'escape', 'xs': toks[:1]}
+    if op == 'format':
+        return {'op': 'format', 'tag': tagname, 'path': path, 'xs': toks}
+    if op == 'sformat':
+        return {'op': 'sformat', 'tpl': rng.choice(['{}', '({})', '{}:', 'f({}): x']) if len(toks) == 1 else ' '.join(['{}'] * len(toks)), 'xs': toks}
+    if op == 'sformat_kw':
+        return {'op': 'sformat', 'tpl': 'msgid {id}', 'xs': [], 'kws': [['id', toks[0]]]}
+    if op == 'tag':
+        return {'op': 'tag', 'tag': tagname, 'path': path, 'xs': toks}
+    raise ValueError(op)
+
+def gen_unit_sequences(chk):
+    """(a) pairs: the same text under two types through two entry points, every ordered pair of types, unique text per
+    sequence so that the only relevant history is the sequence itself; (b) the tool's own message identification printed
+    as safestr, then the same characters as file text (and the reverse); (c) specials that cannot be made unique ('' …),
+    numbers equal as dict keys (1, True, 1.0, '1'); (d) random longer sequences over a few texts"""
+    rng = chk.rng
+    ops = ['escape', 'format', 'sformat', 'sformat_kw', 'tag']
+    seqs = []
+    n = 0
+    for base in SEQ_BASES:
+        for k1 in SEQ_KINDS:
+            for k2 in SEQ_KINDS:
+                pairs = [(a, b) for a in ops for b in ops]
+                if not chk.thorough:
+                    pairs = rng.sample(pairs, 5)
+                for o1, o2 in pairs:
+                    n += 1
+                    text = f'{base}{n}'
+                    c1 = unit_call(rng, o1, [typed_tok(k1, text)])
+                    c2 = unit_call(rng, o2, [typed_tok(k2, text)])
+                    seqs.append({'what': f'{k1}:{o1} then {k2}:{o2}', 'calls': [c1, c2]})
+    # (b) message_repr output as safestr, later the same characters from the file — and the reverse
+    for _ in range(400 if chk.thorough else 80):
+        n += 1
+        msgid = rng.choice([f'foo{n}', f'two words{n}', f"it's{n}", f'ż{n}'])
+        ctxt = rng.choice([None, None, f'ctx{n}', f'c t{n}'])
+        tpl = rng.choice(['{}:', '{}', '({})'])
+        text = ref_message_repr(msgid, ctxt, tpl)
+        k2 = rng.choice('uuubo')
+        first = {'op': 'tagmsg', 'tag': 'unknown-message-flag', 'path': 'pl.po', 'tpl': tpl, 'msgid': msgid, 'ctxt': ctxt, 'xs': [typed_tok('u', 'fancy-flag')]}
+        other = {'op': 'tagmsg', 'tag': 'unknown-message-flag', 'path': 'pl.po', 'tpl': tpl, 'msgid': f'bar{n}', 'ctxt': None, 'xs': [typed_tok(k2, text)]}
+        alt = unit_call(rng, rng.choice(ops), [typed_tok(k2, text)])
+        second = rng.choice([other, other, alt])
+        as_msgid = {'op': 'tagmsg', 'tag': 'duplicate-message-definition', 'path': 'pl.po', 'tpl': '{}', 'msgid': text, 'ctxt': rng.choice([None, text]), 'xs': []}
+        order = rng.choice([[first, second], [second, first], [first, as_msgid], [as_msgid, first], [first, second, first, as_msgid]])
+        seqs.append({'what': 'message identification as tool text and as file text', 'calls': order})
+    # (b') the same arguments except one: other path, other tag, other template, with / without msgctxt (a memo keyed by too little)
+    for _ in range(200 if chk.thorough else 40):
+        n += 1
+        text = f'{rng.choice(SEQ_BASES)}{n}'
+        toks = [typed_tok(rng.choice(SEQ_KINDS), text)]
+        t1, t2 = rng.sample(SEQ_TAGS, 2)
+        calls = [{'op': 'tag', 'tag': t1, 'path': 'a.po', 'xs': toks}, {'op': 'tag', 'tag': t1, 'path': 'dir/b.po', 'xs': toks}, {'op': 'tag', 'tag': t2, 'path': 'a.po', 'xs': toks},
+                 {'op': 'format', 'tag': t1, 'path': 'a.po', 'xs': toks}, {'op': 'format', 'tag': t2, 'path': 'c.po', 'xs': toks + toks},
+                 {'op': 'msgrepr', 'tpl': '{}', 'msgid': text, 'ctxt': None}, {'op': 'msgrepr', 'tpl': '{}', 'msgid': text, 'ctxt': f'c {n}'},
+                 {'op': 'msgrepr', 'tpl': '{}:', 'msgid': text, 'ctxt': None}, {'op': 'msgrepr', 'tpl': '({})', 'msgid': text, 'ctxt': text},
+                 {'op': 'sformat', 'tpl': '{}', 'xs': toks}, {'op': 'sformat', 'tpl': '{}:', 'xs': toks}, {'op': 'sformat', 'tpl': '{0} {0}', 'xs': toks}]
+        rng.shuffle(calls)
+        seqs.append({'what': 'same text, one other argument changed', 'calls': calls})
+    # (c) specials
+    sp = []
+    for t in SEQ_SPECIALS:
+        kinds = list('subo')
+        rng.shuffle(kinds)
+        sp += [unit_call(rng, rng.choice(ops), [typed_tok(k, t)]) for k in kinds]
+    sp += [{'op': 'escape', 'xs': [t]} for t in rng.sample(['i:1', 'B:1', 'f:1.0', 'u:31', 's:31', 'i:0', 'B:0', 'f:0.0', 'f:-0.0', 'i:-1', 'f:-1.0', 'b:31'], 12)]
+    seqs.append({'what': 'specials', 'calls': sp})
+    seqs.append({'what': 'specials reversed', 'calls': sp[::-1]})
+    # (d) random longer sequences
+    for _ in range(1500 if chk.thorough else 250):
+        n += 1
+        texts = [f'{rng.choice(SEQ_BASES)}{n}', f'{rng.choice(SEQ_BASES)}{n}', rng.choice(SEQ_SPECIALS)]
+        calls = []
+        for _ in range(rng.randint(3, 8)):
+            toks = [typed_tok(rng.choice(SEQ_KINDS), rng.choice(texts)) for _ in range(rng.choice([1, 1, 2, 3]))]
+            calls.append(unit_call(rng, rng.choice(['escape', 'format', 'sformat', 'tag', 'tag']), toks))
+        seqs.append({'what': 'random sequence over three texts', 'calls': calls})
+    return seqs
+
+def plant_exact(cat, t, how, u, j):
+    """file text EQUAL to t in one slot whose content the tool prints"""
+    if how == 'flag':
+        cat['entries'].append({'msgid': f'bar{u}-{j}', 'msgstr': 'y', 'flags': [t]})
+    elif how == 'msgid':
+        cat['entries'].append({'msgid': t, 'msgstr': 'y', 'flags': ['fancy-flag']})
+    elif how == 'msgctxt':
+        cat['entries'].append({'msgctxt': t, 'msgid': f'c{u}-{j}', 'msgstr': 'y', 'flags': ['fancy-flag']})
+    elif how == 'dup':
+        cat['entries'] += [{'msgid': t, 'msgstr': 'y'}, {'msgid': t, 'msgstr': 'z'}]
+    elif how == 'stray':
+        cat['header'].append((None, t))
+    elif how == 'hdrkey':
+        cat['header'].append((t.replace(':', '').strip() or 'k', 'v'))
+    elif how == 'poedit':
+        G.set_header(cat, 'X-Poedit-Language', t)
+    elif how == 'fmtkey':
+        key = t.replace('(', '').replace(')', '').replace('%', '')
+        cat['entries'].append({'flags': ['python-format'], 'msgid': '%(a)s', 'msgstr': f'%({key})s'})
+    else:
+        G.set_header(cat, how, t)
+
+PLANT_SLOTS = ['flag', 'flag', 'msgid', 'msgctxt', 'dup', 'stray', 'hdrkey', 'poedit', 'fmtkey', 'PO-Revision-Date', 'POT-Creation-Date', 'Language',
+               'Content-Type', 'MIME-Version', 'Content-Transfer-Encoding', 'Last-Translator', 'Language-Team', 'Report-Msgid-Bugs-To', 'Project-Id-Version']
+
+def gen_e2e_sequences(chk, R, count):
+    """catalog A whose problems make the tool print its own texts (message identifications, header names, …); these texts
+    are harvested from the tag() ARGUMENTS of a run of A (safestr extras) and from the reference lines, and planted as exact
+    file text (flag, msgid, msgctxt, header value/key, stray line, format key) into: A itself (one file: message-level slots come
+    after, header-level slots before the tool text), and a second catalog B checked after A and before A"""
+    T = R.tags
+    rng = chk.rng
+    Capture = make_capture(R)
+    registry = registry_from_file()
+    tmp = tempfile.mkdtemp(prefix='i18n-verif-c02h.')
+    seqs = []
+    harvested = 0
+    try:
+        for n in range(count):
+            u = str(n)
+            def mkA():
+                A = G.base_catalog()
+                A['entries'] += [{'msgid': f'foo{u}', 'msgstr': 'x', 'flags': ['fancy-flag']},
+                                 {'msgid': f'two words{u}', 'msgstr': 'x', 'flags': [f'odd-flag{u}']},
+                                 {'msgctxt': f'ctx{u}', 'msgid': f'dup{u}', 'msgstr': 'x'}, {'msgctxt': f'ctx{u}', 'msgid': f'dup{u}', 'msgstr': 'y'}]
+                return A
+            A = mkA()
+            extra_slots = []
+            if n % 3:
+                S = G.slots(f'q{u} z', rng)
+                extra_slots = rng.sample(sorted(S), 2)
+                for s in extra_slots:
+                    S[s](A)
+            textA = G.render_po(A)
+            d = os.path.join(tmp, u)
+            os.makedirs(d)
+            pa = os.path.join(d, 'pl.po')
+            open(pa, 'wb').write(textA.encode('utf-8', 'surrogateescape'))
+            calls, _crash, _stray = run_file(R, Capture, pa, ())
+            cands = []
+            for c in calls:
+                for x in c['extras']:
+                    if isinstance(x, T.safestr):
+                        cands.append(str.__str__(x))
+                if c['tag'] in registry:
+                    toks = [ref_escape(x, T.safestr) for x in c['extras']]
+                    cands += [t for t in toks if t[:1] in '\'"']                                     # what the tool printed for file text
+                    cands.append(' '.join([c['tag']] + toks))                                        # the line without its head
+            cands = sorted({t for t in cands if t and not SAFE_WORD.fullmatch(t) and '\n' not in t and ',' not in t and t == t.strip() and len(t) < 200})
+            if not cands:
+                continue
+            harvested += len(cands)
+            uniq = [t for t in cands if u in t]
+            picks = rng.sample(uniq, min(len(uniq), 3)) + rng.sample(cands, min(len(cands), 2))
+            plants = [(t, rng.choice(PLANT_SLOTS)) for t in picks]
+            if n == 0:
+                plants = [(f'msgid foo{u}:', 'flag'), (f'msgid foo{u}:', 'Project-Id-Version')] + plants
+            one = G.base_catalog()
+            one['entries'] = A['entries'][:]
+            one['header'] = A['header'][:]
+            for k in ('initial_comments', 'header_refs', 'header_flags', 'header_plural'):
+                if k in A:
+                    one[k] = A[k]
+            B = G.base_catalog()
+            for j, (t, how) in enumerate(plants):
+                plant_exact(one, t, how, u, j)
+                plant_exact(B, t, how, u, j)
+            fa = {'name': 'pl.po', 'hex': textA.encode('utf-8', 'surrogateescape').hex()}
+            if rng.random() < 0.2:
+                fb = {'name': 'b.mo', 'hex': G.mo_bytes(B).hex()}
+            else:
+                fb = {'name': 'de.po', 'hex': G.render_po(B).encode('utf-8', 'surrogateescape').hex()}
+            f1 = {'name': 'pl.po', 'hex': G.render_po(one).encode('utf-8', 'surrogateescape').hex()}
+            planted = [{'text': t, 'slot': how} for t, how in plants]
+            seqs.append({'what': 'one file: its own tool text planted as file text', 'files': [f1], 'planted': planted, 'slots': extra_slots})
+            seqs.append({'what': 'A then B (B carries text the tool printed for A)', 'files': [fa, fb], 'planted': planted, 'slots': extra_slots})
+            seqs.append({'what': 'B then A (file text first, the same characters as tool text later)', 'files': [fb, fa], 'planted': planted, 'slots': extra_slots})
+            if n % 4 == 0:
+                seqs.append({'what': 'the same catalog under two paths', 'files': [fa, dict(fa, name='copy/pl_PL.po')], 'planted': [], 'slots': extra_slots})
+    finally:
+        shutil.rmtree(tmp, ignore_errors=True)
+    for i, sq in enumerate(seqs):
+        sq['id'] = i
+    return seqs, harvested
+
+def sequence_stream(chk, R, workers=3):
+    """run the sequences in fresh worker processes (controlled history); returns (violation dicts, stats, lines, outs)"""
+    unit = gen_unit_sequences(chk)
+    e2e, harvested = gen_e2e_sequences(chk, R, 60 if chk.thorough else 16)
+    tmp = tempfile.mkdtemp(prefix='i18n-verif-c02w.')
+    procs = []
+    try:
+        for w in range(workers):
+            job = {'unit': unit[w::workers], 'e2e': e2e[w::workers], 'fresh_budget': 400 if chk.thorough else 60,
+                   'order': ['e2e', 'unit'] if w % 2 == 0 else ['unit', 'e2e'], 'result': os.path.join(tmp, f'r{w}.json')}
+            if w % 2:
+                job['unit'] = job['unit'][::-1]
+            p = subprocess.Popen([common.PY, os.path.abspath(__file__), '--seq-worker'], stdin=subprocess.PIPE, stdout=subprocess.PIPE, stderr=subprocess.PIPE,
+                                 env=dict(os.environ, PYTHONDONTWRITEBYTECODE='1', PYTHONHASHSEED='0'))
+            procs.append((p, job))
+            p.stdin.write(json.dumps(job).encode())
+            p.stdin.close()
+        violations, lines, outs = [], [], []
+        stats = {'workers': workers, 'unit_sequences': len(unit), 'e2e_sequences': len(e2e), 'harvested_tool_texts': harvested, 'unit_calls': 0, 'fresh_calls': 0,
+                 'ops': {}, 'e2e_files': 0, 'e2e_calls': 0, 'e2e_crashes': 0, 'tags_seen': set()}
+        for p, job in procs:
+            err = p.stderr.read().decode('utf-8', 'replace')
+            p.stdout.read()
+            rc = p.wait(timeout=600)
+            if rc != 0 or not os.path.exists(job['result']):
+                # the worker died on the real code (import error of a modified tree …): an outcome, not an infrastructure failure
+                violations.append({'kind': 'sequence-worker-crash', 'key': 'sequence:worker-crash', 'tag': '-', 'where': 'sequence worker', 'observed': err[-800:], 'expected': 'the worker finishes',
+                                   'no_input': True})
+                continue
+            r = json.load(open(job['result']))
+            violations += r['violations']
+            lines += r['lines']
+            outs += r['outs']
+            for k in ('unit_calls', 'fresh_calls', 'e2e_files', 'e2e_calls', 'e2e_crashes'):
+                stats[k] += r['stats'][k]
+            for k, v in r['stats']['ops'].items():
+                stats['ops'][k] = stats['ops'].get(k, 0) + v
+            stats['tags_seen'].update(r['stats']['tags_seen'])
+    finally:
+        for p, _job in procs:
+            if p.poll() is None:
+                p.kill()
+        shutil.rmtree(tmp, ignore_errors=True)
+    stats['tags_seen'] = sorted(stats['tags_seen'])
+    stats['violations_before_dedup'] = len(violations)
+    # the most damaging first: file text that comes out unquoted; one replay per (kind, key, direction), at most 8
+    def prio(v):
+        raw = str(v.get('grammar') or '').find('file-derived value') >= 0 or (v.get('kind', '').startswith(('history', 'sequence-output')) and 'safestr' not in v.get('call', ''))
+        return (0 if raw else 1, v.get('kind', ''), v.get('key', ''))
+    violations.sort(key=prio)
+    seen, kept, rest = set(), [], []
+    for v in violations:                      # first the best one of every kind, then others with new keys
+        (kept if v.get('kind') not in seen else rest).append(v)
+        seen.add(v.get('kind'))
+    for v in rest:
+        k = (prio(v)[0], v.get('kind'), v.get('key'))
+        if k not in seen and len(kept) < 8:
+            seen.add(k)
+            kept.append(v)
+    return kept, stats, lines, outs, e2e
+
+def falsify_cli_sequences(chk, R, e2e, count):
+    """the real command line: `i18nspector A B` (one process) prints what `i18nspector A` followed by `i18nspector B` print"""
+    import e2e_common as E
+    two = [sq for sq in e2e if len(sq['files']) == 2][:count]
+    tried = 0
+    with E.Workdir() as wd:
+        jobs = []
+        for sq in two:
+            names = []
+            for j, f in enumerate(sq['files']):
+                names.append(os.path.relpath(wd.write(f"c{sq['id']}/{j}/{f['name']}", bytes.fromhex(f['hex'])), wd.path))
+            jobs.append((sq, names))
+        def one(job):
+            sq, names = job
+            return E.run_cli(names, wd.path), [E.run_cli([nm], wd.path) for nm in names]
+        for (sq, names), (both, single) in zip(jobs, E.parallel(one, jobs, workers=4)):
+            tried += 1
+            exp = ''.join(s['stdout'] for s in single)
+            if both['stdout'] != exp or both['timeout']:
+                bl, el = both['stdout'].splitlines(), exp.splitlines()
+                k = next((i for i, (a, b) in enumerate(zip(bl, el)) if a != b), min(len(bl), len(el)))
+                return {'kind': 'cli-output-depends-on-earlier-file', 'input': 'i18nspector ' + ' '.join(names), 'planted': sq.get('planted'),
+                        'observed': ascii(bl[k]) if k < len(bl) else f'{len(bl)} lines', 'expected': ascii(el[k]) if k < len(el) else f'{len(el)} lines',
+                        'files': [{'name': nm, 'content': bytes.fromhex(f['hex']).decode('utf-8', 'backslashreplace') if not nm.endswith('.mo') else None, 'hex': f['hex']}
+                                  for nm, f in zip(names, sq['files'])],
+                        'replay': f"write the files and compare: {common.PY} {common.REPO}/i18nspector {' '.join(names)}   with   " +
+                                  ' ; '.join(f'{common.PY} {common.REPO}/i18nspector {nm}' for nm in names)}, tried
+    chk.coverage['cli_sequences'] = {'pairs': tried}
+    return None, tried
+
+if __name__ == '__main__':
+    if '--seq-worker' in sys.argv:
+        seq_worker_main()
